@@ -40,6 +40,8 @@ class StubEzsp:
 
         self.calls.append("getValue")
         self._maybe_fail(1)
+        if self.plan == "u":
+            return (t.EzspStatus.ERROR_INVALID_ID, b"")
         return (t.EzspStatus.SUCCESS, b"\x10")
 
 
@@ -93,13 +95,13 @@ def run(ctx):
     cases = []
     for version in (4, 8):
         for n in range(1, L + 1):
-            for w in itertools.product("ote", repeat=n):
+            for w in itertools.product("oteu" if version != 4 and n <= L - 1 else "ote", repeat=n):
                 cases.append((version, "".join(w)))
     # other versions, random longer words, and runs across the counter-clear boundary
     for _ in range(ctx.n(100, 1000)):
         v = ctx.rng.choice([4, 5, 6, 7, 9, 10, 11, 12, 13, 14])
         n = ctx.rng.randint(8, 40)
-        cases.append((v, "".join(ctx.rng.choice("ooootte") for _ in range(n))))
+        cases.append((v, "".join(ctx.rng.choice("oouuttte") for _ in range(n))))
     for v in (4, 7, 14):
         n = 2 * period + 40
         cases.append((v, "".join(ctx.rng.choice("ooooooooote") for _ in range(n))))
@@ -113,7 +115,8 @@ def run(ctx):
         return res
 
     impl = asyncio.run(all_impl())
-    model = ctx.driver([f"c19 run {v} 0 {w}" for v, w in cases])
+    # 'u' (feed succeeds, free-buffer value unavailable) is an `ok` outcome for the model and the property
+    model = ctx.driver([f"c19 run {v} 0 {w.replace('u', 'o')}" for v, w in cases])
     nontrivial = 0
     for i, ((v, w), got) in enumerate(zip(cases, impl)):
         ctx.cov["evaluations"] += 1
